@@ -209,3 +209,16 @@ vr_trace(const char *fmt, ...)
 	fprintf(stderr, "\n");
 	va_end(ap);
 }
+
+// Sanitizer defaults compiled into every driver, so that direct runs behave like check.py runs:
+// huge allocation requests (hostile length fields) must return NULL instead of aborting the process.
+const char *
+__asan_default_options(void)
+{
+	return "detect_leaks=0:allocator_may_return_null=1:detect_stack_use_after_return=0:abort_on_error=0";
+}
+const char *
+__ubsan_default_options(void)
+{
+	return "print_stacktrace=1";
+}
